@@ -53,6 +53,43 @@ theorem crateRule_respects (lang : String) : RespectsValue (crateRule lang) := b
     | (simp only [crateCardAr, crateCardLt, crateCardRo, crateOrdEn, crateOrdUk, crateOrdSv, nEq, nModEq, nModIn,
         hn, hi, hv, hf] <;> rfl)
 
+/-! ## where the rules of intl_pluralrules 7.0.2 still agree with CLDR (the boundary of known finding F26)
+
+`o.nInt = some o.i` says the value is integral (and `i` not saturated). -/
+
+theorem crate_ar_agrees (o : Operands) (hn : o.nInt = some o.i) (h : o.i < 100) :
+    crateCardAr o = cardAr o := by
+  have hm : o.i % 100 = o.i := Nat.mod_eq_of_lt h
+  simp only [crateCardAr, cardAr, nEq, nModIn, hn, hm, inRange]
+  by_cases h0 : o.i = 0
+  · simp [h0]
+  by_cases h1 : o.i = 1
+  · simp [h1]
+  by_cases h2 : o.i = 2
+  · simp [h2]
+  by_cases h3 : 3 ≤ o.i ∧ o.i ≤ 10
+  · simp [h0, h1, h2, h3]
+  by_cases h4 : 11 ≤ o.i ∧ o.i ≤ 99
+  · have : ¬ (3 ≤ o.i ∧ o.i ≤ 10) := h3
+    simp [h0, h1, h2, h3, h4]
+  · omega
+
+theorem crate_lt_agrees (o : Operands) (hn : o.nInt = some o.i) (hf : o.f = 0) (h : o.i < 20) :
+    crateCardLt o = cardLt o := by
+  simp only [crateCardLt, cardLt, nModEq, nModIn, hn, inRange]
+  have : o.i = 0 ∨ o.i = 1 ∨ o.i = 2 ∨ o.i = 3 ∨ o.i = 4 ∨ o.i = 5 ∨ o.i = 6 ∨ o.i = 7 ∨ o.i = 8 ∨ o.i = 9 ∨
+      o.i = 10 ∨ o.i = 11 ∨ o.i = 12 ∨ o.i = 13 ∨ o.i = 14 ∨ o.i = 15 ∨ o.i = 16 ∨ o.i = 17 ∨ o.i = 18 ∨ o.i = 19 := by omega
+  rcases this with h|h|h|h|h|h|h|h|h|h|h|h|h|h|h|h|h|h|h|h <;> simp [h, hf]
+
+theorem crate_ordEn_agrees (o : Operands) (hn : o.nInt = some o.i) : crateOrdEn o = ordEn o := by
+  simp only [crateOrdEn, ordEn, nModEq, hn]
+  have h10 : o.i % 10 < 10 := Nat.mod_lt _ (by decide)
+  by_cases h3 : o.i % 10 = 3
+  · simp [h3]
+  by_cases h1 : o.i % 10 = 1
+  · simp [h1]
+  · simp [h3, h1]
+
 /-! ## the select loop -/
 
 theorem firstMatch_append (cat : FluentNumber → Option Category) (sel : Val)
